@@ -18,6 +18,8 @@ import (
 type Loc struct {
 	B *ssa.BasicBlock
 	I int
+	// Known seeds TrackEq searches with the fact of the edge this location was entered through.
+	Known string
 }
 
 // EdgeInfo describes one outgoing edge of an If.
@@ -42,6 +44,11 @@ type CutSpec struct {
 	// node (spawning or scheduling a call is not the call). Rules whose event IS the go/defer
 	// statement itself set this.
 	GoDeferCount bool
+	// TrackEq makes the search path-sensitive for comparisons of one pure value (a parameter, a
+	// field load, a local) with constants: an edge whose fact `eq(X,const:a)` / `ne(X,const:a)`
+	// contradicts an `eq(X,const:b)` already taken on the path is infeasible and pruned. Rules opt
+	// in only where X is not written between the comparisons.
+	TrackEq bool
 }
 
 // Entry is the start location of a function.
@@ -50,7 +57,7 @@ func Entry(f *ssa.Function) []Loc {
 		return nil
 	}
 
-	return []Loc{{f.Blocks[0], 0}}
+	return []Loc{{B: f.Blocks[0]}}
 }
 
 // After returns the locations just after each instruction selected by pred.
@@ -60,7 +67,7 @@ func After(f *ssa.Function, pred InstrPred) []Loc {
 	for _, b := range f.Blocks {
 		for i, in := range b.Instrs {
 			if pred(in) {
-				out = append(out, Loc{b, i + 1})
+				out = append(out, Loc{B: b, I: i + 1})
 			}
 		}
 	}
@@ -88,23 +95,27 @@ func Find(f *ssa.Function, pred InstrPred) []ssa.Instruction {
 }
 
 type pstate struct {
-	blk  *ssa.BasicBlock
-	idx  int
-	pred *ssa.BasicBlock
-	prev *pstate
-	note string
+	blk   *ssa.BasicBlock
+	idx   int
+	pred  *ssa.BasicBlock
+	prev  *pstate
+	note  string
+	known string // TrackEq: "X=const;..." facts taken on the path, sorted
 }
 
 // Reach reports whether some TARGET is reachable from starts without passing an enabling event,
 // and if so a witness path.
 func (p *Program) Reach(starts []Loc, target InstrPred, cut CutSpec) (bool, []string) {
-	type key struct{ b, pred *ssa.BasicBlock }
+	type key struct {
+		b, pred *ssa.BasicBlock
+		known   string
+	}
 
 	seen := map[key]bool{}
 
 	var queue []*pstate
 	for _, s := range starts {
-		queue = append(queue, &pstate{blk: s.B, idx: s.I})
+		queue = append(queue, &pstate{blk: s.B, idx: s.I, known: s.Known})
 	}
 
 	for len(queue) > 0 {
@@ -112,7 +123,7 @@ func (p *Program) Reach(starts []Loc, target InstrPred, cut CutSpec) (bool, []st
 		queue = queue[1:]
 
 		if cur.idx == 0 {
-			k := key{cur.blk, cur.pred}
+			k := key{cur.blk, cur.pred, cur.known}
 			if seen[k] {
 				continue
 			}
@@ -157,14 +168,25 @@ func (p *Program) Reach(starts []Loc, target InstrPred, cut CutSpec) (bool, []st
 					continue
 				}
 
-				queue = append(queue, &pstate{blk: succ, pred: b, prev: cur, note: "[" + strings.Join(facts[:1], ",") + "]"})
+				known := cur.known
+
+				if cut.TrackEq {
+					var feasible bool
+
+					known, feasible = trackEq(cur.known, facts[0])
+					if !feasible {
+						continue
+					}
+				}
+
+				queue = append(queue, &pstate{blk: succ, pred: b, prev: cur, note: "[" + strings.Join(facts[:1], ",") + "]", known: known})
 			}
 
 			continue
 		}
 
 		for _, succ := range b.Succs {
-			queue = append(queue, &pstate{blk: succ, pred: b, prev: cur})
+			queue = append(queue, &pstate{blk: succ, pred: b, prev: cur, known: cur.known})
 		}
 	}
 
@@ -428,4 +450,70 @@ func isGoOrDefer(in ssa.Instruction) bool {
 	}
 
 	return false
+}
+
+// trackEq updates the set of `X=const` facts known on a path with one more edge fact; it reports
+// false when the new fact contradicts what is known. Only comparisons of a call-free description
+// with a constant are tracked.
+func trackEq(known, fact string) (string, bool) {
+	var op string
+
+	switch {
+	case strings.HasPrefix(fact, "eq("):
+		op = "eq"
+	case strings.HasPrefix(fact, "ne("):
+		op = "ne"
+	default:
+		return known, true
+	}
+
+	body := strings.TrimSuffix(fact[3:], ")")
+
+	i := strings.LastIndex(body, ",const:")
+	if i < 0 {
+		return known, true
+	}
+
+	x, k := body[:i], body[i+1:]
+	if strings.Contains(x, "call:") || strings.Contains(x, "phi(") {
+		return known, true
+	}
+
+	for _, kv := range strings.Split(known, ";") {
+		if kv == "" {
+			continue
+		}
+
+		j := strings.LastIndex(kv, "=")
+		if kv[:j] != x {
+			continue
+		}
+
+		if op == "eq" {
+			return known, kv[j+1:] == k
+		}
+
+		return known, kv[j+1:] != k
+	}
+
+	if op == "ne" {
+		return known, true
+	}
+
+	if known == "" {
+		return x + "=" + k, true
+	}
+
+	parts := append(strings.Split(known, ";"), x+"="+k)
+	sortStringsLocal(parts)
+
+	return strings.Join(parts, ";"), true
+}
+
+func sortStringsLocal(s []string) {
+	for i := 1; i < len(s); i++ {
+		for j := i; j > 0 && s[j] < s[j-1]; j-- {
+			s[j], s[j-1] = s[j-1], s[j]
+		}
+	}
 }
